@@ -24,7 +24,9 @@ META = {
         "objective must be bounded below on every feasible set by construction (c == 0, or c >= 0 with finite lower "
         "bounds, or c <= 0 with finite upper bounds); otherwise 'unbounded' is read as 'no solution'. Witness "
         "discipline (CFG dominance): a positive verdict is returned only after the witness was re-checked "
-        "(np.all(m > eps), residual test); the definitive False of is_conservative is reachable only on the LP path."
+        "(np.all(m > eps), residual test); is_conservative is tabulated over (no reactions, kernel trivial, witness found, "
+        "LP attempted, kernel dimension): True iff a witness exists, a definitive False only from a trivial kernel, a "
+        "one-dimensional kernel or an attempted LP."
     ),
     "rules": {"R15": "symbolic matrix arithmetic", "R13": "sibling sign agreement", "R10": "LP boundedness at oracle sites",
               "DOM": "witness re-check dominates every positive return", "SHAPE": "kernel/rank wiring"},
